@@ -279,7 +279,11 @@ def run(tier, seed):
         modes[m] = modes.get(m, 0) + 1
     nontrivial = sum(c for k, c in out.classes.items() if k != "-")
     known_fail = sum(1 for _, s, _ in out.failures if s in DEV_SIG.values())
+    # two-repository behaviours of System2.tla (commit / fetch / push / pull / merge / prune through the real CLI)
+    from props import system2_common
+    sys2cov, _ = system2_common.run(v, PROP, tier, seed)
     cov = {
+        "system2_behaviours": sys2cov,
         "states": states, "transitions": trans,
         "scenarios": n_scn,
         "traces_validated_against_impl": n_traces - len(rejections),
@@ -324,6 +328,9 @@ def _count(it):
 def replay(path):
     with open(path) as f:
         doc = json.load(f)
+    if doc.get("engine") == "system2":
+        from props import system2_common
+        return system2_common.replay(PROP, path, doc)
     if doc.get("mode") == "trace":
         ops = os.path.join(vlib.sub("traces"), "ops.ndjson")
         with open(ops, "w") as f:
